@@ -1,8 +1,8 @@
 SPECIFICATION Spec
 CONSTANTS
-  Threads = {1, 2, 3}
+  Threads = {1, 2}
   MaxCalls = 3
   Hint = FALSE
-INVARIANTS OnlyValidBuilt SameQuestionSameAnswer ElementsAgree AnsweredIffInRange FiniteNeverRejected ShapeOk
+INVARIANTS OnlyValidBuilt SameQuestionSameAnswer ElementsAgree AnsweredIffInRange FiniteNeverRejected ShapeOk BadBufferNeverOk
 PROPERTY Immutable
 CHECK_DEADLOCK FALSE
